@@ -1,6 +1,6 @@
 (* Walk.v — the two twelve-fold unrolled month walks (ordinal -> month/day, month/day-ordinal -> ordinal)
    against the month sums of the specification. *)
-From JV Require Import Sem Gen Spec.
+From JV Require Import Sem Gen Spec SpecX.
 From JV.Proofs Require Import SpecFacts GapFacts Cal Cmp Inner Year MonthGeom Shape Month MonthSpec SpecSums.
 Import ListNotations.
 Open Scope Z_scope.
@@ -11,7 +11,6 @@ Definition all_months : list Month :=
    Month_August; Month_September; Month_October; Month_November; Month_December].
 
 (* ------------------------------------------------------------------ structure of ordinal2ymddo *)
-Definition WalkRes : Type := Result (Month * Z * Z) DateError.
 Definition walk_step (self : Calendar) (year : Z) (mon : Month) (days : Z) (k : Z -> M WalkRes) : M WalkRes :=
   t <- Calendar_month_shape self year mon;;
   match t with
@@ -37,12 +36,6 @@ Lemma ordinal2ymddo_unfold self year ordinal :
 Proof. reflexivity. Qed.
 
 (* the month and in-month position of the o-th date of a year *)
-Fixpoint locate_in (c : cal) (y : Z) (ms : list Z) (days : Z) : option (Z * Z) :=
-  match ms with
-  | [] => None
-  | m :: rest => if days <=? month_count c y m then Some (m, days) else locate_in c y rest (days - month_count c y m)
-  end.
-Definition locate (c : cal) (y o : Z) : option (Z * Z) := locate_in c y (zseq 1 12) o.
 
 Lemma walk_step_ok c y mon days k : ValidCal c -> in_i32 y -> 1 <= days -> in_u32 days ->
   walk_step (cal_of c) y mon days k =
@@ -105,13 +98,6 @@ Qed.
 
 Lemma all_months_discr : map Month_discr all_months = zseq 1 12.
 Proof. reflexivity. Qed.
-
-Definition ymddo_spec (c : cal) (y o : Z) : WalkRes :=
-  if (o <? 1) || (year_count c y <? o) then Err (DateError_OrdinalOutOfRange y o (year_count c y))
-  else match locate c y o with
-       | Some (m, p) => Ok (month_of_Z m, sh_nth (shape_of c y m) p, p)
-       | None => Err DateError_Arithmetic (* unreachable: see locate_spec *)
-       end.
 
 Lemma ordinal2ymddo_ok c y o : ValidCal c -> in_i32 y -> in_u32 o ->
   Calendar_ordinal2ymddo (cal_of c) y o = Ret (ymddo_spec c y o).
